@@ -94,8 +94,7 @@ def run_memberdef(ctx, st, pool):
     from mistral.utils import safe_yaml
     drv = ctx.driver()
     cases = [c for c in cut_cases(ctx, st, pool) if c[1] in ('workflows:', 'actions:')]
-    if not ctx.thorough():
-        cases = cases[:ctx.n(2500, 2500)]
+    cases = cases[:ctx.n(1500, 12000)]
     cuts = drv.batch('lang.cutDef', [{'wb': t, 'sec': s, 'item': i + ':'} for t, s, i, _ in cases])
     args = []
     impl = []
